@@ -599,6 +599,12 @@ func syncIndexedDoc(
 		return err
 	}
 
+	if isNewDoc && isDeletedDoc {
+		// The document is visible neither before nor after the merge
+		// (e.g. it arrived already deleted), so there is nothing to index.
+		return nil
+	}
+
 	if isNewDoc {
 		return col.indexNewDoc(ctx, doc)
 	} else if isDeletedDoc {
